@@ -54,6 +54,10 @@ func FromDateTime(d types.DateTime) spec.CivilDT {
 	return spec.CivilDT{Y: t.Year(), M: int(t.Month()), D: t.Day(), H: t.Hour(), Mi: t.Minute(), S: t.Second()}
 }
 
+// UnixOf: the instant a returned date-time denotes (extra observation "<field>@unix"; the reference
+// decoding of a reply date-time is its wall clock in the process time zone).
+func UnixOf(d types.DateTime) int64 { return time.Time(d).Unix() }
+
 func ToTime(c spec.CivilDT, loc *time.Location) time.Time {
 	if c.Zero {
 		return time.Time{}
@@ -145,10 +149,10 @@ func cardFields(c *types.Card) map[string]any {
 
 func StatusFields(s *types.Status) map[string]any {
 	f := map[string]any{
-		"SerialNumber": uint32(s.SerialNumber), "SystemError": s.SystemError, "SystemDateTime": FromDateTime(s.SystemDateTime),
+		"SerialNumber": uint32(s.SerialNumber), "SystemError": s.SystemError, "SystemDateTime": FromDateTime(s.SystemDateTime), "SystemDateTime@unix": UnixOf(s.SystemDateTime),
 		"SequenceId": s.SequenceId, "SpecialInfo": s.SpecialInfo, "RelayState": s.RelayState, "InputState": s.InputState,
 		"Event.Index": s.Event.Index, "Event.Type": s.Event.Type, "Event.Granted": s.Event.Granted, "Event.Door": s.Event.Door,
-		"Event.Direction": s.Event.Direction, "Event.CardNumber": s.Event.CardNumber, "Event.Timestamp": FromDateTime(s.Event.Timestamp), "Event.Reason": s.Event.Reason,
+		"Event.Direction": s.Event.Direction, "Event.CardNumber": s.Event.CardNumber, "Event.Timestamp": FromDateTime(s.Event.Timestamp), "Event.Timestamp@unix": UnixOf(s.Event.Timestamp), "Event.Reason": s.Event.Reason,
 	}
 	for i := uint8(1); i <= 4; i++ {
 		f[fmt.Sprintf("Door%dState", i)] = s.DoorState[i]
@@ -201,7 +205,7 @@ func Invoke(u uhppote.IUHPPOTE, op string, serial uint32, a spec.Args) spec.Obse
 		if err != nil || t == nil {
 			return spec.Observed{Err: err, Nil: t == nil}
 		}
-		return spec.Observed{Fields: map[string]any{"SerialNumber": uint32(t.SerialNumber), "DateTime": FromDateTime(t.DateTime)}}
+		return spec.Observed{Fields: map[string]any{"SerialNumber": uint32(t.SerialNumber), "DateTime": FromDateTime(t.DateTime), "DateTime@unix": UnixOf(t.DateTime)}}
 
 	case "SetTime":
 		var tt time.Time
@@ -214,7 +218,7 @@ func Invoke(u uhppote.IUHPPOTE, op string, serial uint32, a spec.Args) spec.Obse
 		if err != nil || t == nil {
 			return spec.Observed{Err: err, Nil: t == nil}
 		}
-		return spec.Observed{Fields: map[string]any{"SerialNumber": uint32(t.SerialNumber), "DateTime": FromDateTime(t.DateTime)}}
+		return spec.Observed{Fields: map[string]any{"SerialNumber": uint32(t.SerialNumber), "DateTime": FromDateTime(t.DateTime), "DateTime@unix": UnixOf(t.DateTime)}}
 
 	case "GetDoorControlState", "SetDoorControlState":
 		var s *types.DoorControlState
@@ -321,7 +325,7 @@ func Invoke(u uhppote.IUHPPOTE, op string, serial uint32, a spec.Args) spec.Obse
 		if err != nil || e == nil {
 			return spec.Observed{Err: err, Nil: e == nil}
 		}
-		return spec.Observed{Fields: map[string]any{"SerialNumber": uint32(e.SerialNumber), "Index": e.Index, "Type": e.Type, "Granted": e.Granted, "Door": e.Door, "Direction": e.Direction, "CardNumber": e.CardNumber, "Timestamp": FromDateTime(e.Timestamp), "Reason": e.Reason}}
+		return spec.Observed{Fields: map[string]any{"SerialNumber": uint32(e.SerialNumber), "Index": e.Index, "Type": e.Type, "Granted": e.Granted, "Door": e.Door, "Direction": e.Direction, "CardNumber": e.CardNumber, "Timestamp": FromDateTime(e.Timestamp), "Timestamp@unix": UnixOf(e.Timestamp), "Reason": e.Reason}}
 
 	case "GetEventIndex":
 		e, err := u.GetEventIndex(serial)
